@@ -699,11 +699,12 @@ def checkTypeNames : List BTree → R Unit
     else checkTypeNames r
 
 mutual
-  /-- `collectPaths` / `collectPathVariables`: `last` = identity of the parent of the last Path directive (the directive
-  object itself, F44: copies made by PASTE share their coordinates, not their identity) -/
-  def pathsTree (anc : List BDir) : BTree → Option Nat → R (Option Nat)
-    | .node d kids, last =>
-      if d.kind == .Macro then .ok last
+  /-- `collectPaths` / `collectPathVariables`: `seen` = the identities of the contexts (parents) that already have a Path
+  directive (the directive objects themselves, F44: copies made by PASTE share their coordinates, not their identity;
+  F76: every context met so far is remembered, not only the last one) -/
+  def pathsTree (anc : List BDir) : BTree → List Nat → R (List Nat)
+    | .node d kids, seen =>
+      if d.kind == .Macro then .ok seen
       else if d.kind == .Path then
         if !d.annot.isEmpty then fail d .annotationForbidden
         else if d.body.isNone then fail d .noPathBody
@@ -716,15 +717,15 @@ mutual
               match anc with
               | [] => fail d .parentNotFound
               | p :: _ =>
-                if last == some p.id then fail d .notUnique
-                else pathsForest (d :: anc) kids (some p.id)
-      else pathsForest (d :: anc) kids last
-  def pathsForest (anc : List BDir) : List BTree → Option Nat → R (Option Nat)
-    | [], last => .ok last
-    | t :: r, last =>
-      match pathsTree anc t last with
+                if seen.contains p.id then fail d .notUnique
+                else pathsForest (d :: anc) kids (p.id :: seen)
+      else pathsForest (d :: anc) kids seen
+  def pathsForest (anc : List BDir) : List BTree → List Nat → R (List Nat)
+    | [], seen => .ok seen
+    | t :: r, seen =>
+      match pathsTree anc t seen with
       | .error e => .error e
-      | .ok last' => pathsForest anc r last'
+      | .ok seen' => pathsForest anc r seen'
 end
 
 def validateInfo (c : Cat) : R Unit :=
@@ -755,7 +756,7 @@ def validateResponseBody : List InterM → R Unit
 def compile (banned : List Kind) (forest : List BTree) : R Cat := do
   let c ← collectTags forest {}
   checkTypeNames forest
-  let _ ← pathsForest [] forest none
+  let _ ← pathsForest [] forest []
   match forest with
   | t :: _ => if t.dir.kind != .Jsight then fail t.dir .jsightFirst else pure ()
   | [] => pure ()
